@@ -203,10 +203,17 @@ class CFG:
     def helper(self, e):
         """the unit-private helper a call expression invokes, if it can be expanded here"""
         e = strip_casts(e)
-        if self.prog is None or not isinstance(e, dict) or e.get('k') != 'call' or not e.get('fid'):
+        if self.prog is None or not isinstance(e, dict) or not e.get('fid'):
+            return None
+        if e.get('k') == 'mcall':
+            # a private helper method called on this very object
+            o = strip_casts(e.get('o'))
+            if not (isinstance(o, dict) and o.get('k') == 'this'):
+                return None
+        elif e.get('k') != 'call':
             return None
         g = self.prog.funcs.get(e['fid'])
-        if g is None or not g.get('internal') or not g.get('body') or g.get('va'):
+        if not self.prog.is_helper(g):
             return None
         if g['key'] in self.inl_stack or len(self.inl_stack) > 3:
             return None
